@@ -30,7 +30,7 @@ pub static DEF: CheckDef = CheckDef {
 };
 
 fn families(t: Tier) -> Vec<(&'static str, u64)> {
-    vec![("history", t.n(20_000, 300_000)), ("training", t.n(600, 20_000))]
+    vec![("history", t.n(20_000, 300_000)), ("training", t.n(600, 20_000)), ("scoped", t.n(6_000, 200_000))]
 }
 fn floors(_t: Tier) -> Vec<(&'static str, u64)> {
     vec![
@@ -42,12 +42,13 @@ fn floors(_t: Tier) -> Vec<(&'static str, u64)> {
         ("registered_fetched-gradient", 2_000),
         ("registered_reshaped-view", 2_000),
         ("registered_seed", 3_000),
+        ("scoped_updates_with_graph_released", 3_000),
+        ("scoped_views_checked", 8_000),
     ]
 }
 
 fn run_training(ctx: &mut Ctx, r: &mut Rng) {
     use crate::nn::*;
-    use crate::refmodel::*;
     let spec = gen_net(r, false);
     let n_iter = r.range(2, 8);
     let params0 = gen_params(r, &spec, false);
@@ -86,9 +87,150 @@ fn run_training(ctx: &mut Ctx, r: &mut Rng) {
     }
 }
 
+/// Hand-written minibatch loops (no Model): parameters live in the caller, every iteration builds its graph in an inner
+/// scope, runs the pass, releases the graph (or not) and then lets the optimizer step the parameters. Views of the
+/// parameters are taken the ways user code takes them - a clone, a reshape while tracking is paused
+/// (stop_tracking / reshape / start_tracking), a reshape of an untracked copy, the values of the fetched gradient - and
+/// must all still show their snapshot after every later step, whatever the reference counts were at update time.
+fn run_scoped(ctx: &mut Ctx, r: &mut Rng) {
+    use crate::cg::*;
+    use corgi::array::Array;
+    use corgi::numbers::Float;
+    use corgi::optimizer::{gd::GradientDescent, Optimizer};
+    let rank = r.range(1, 3);
+    let dims: Vec<usize> = (0..rank).map(|_| r.range(1, 4)).collect();
+    let n: usize = dims.iter().product();
+    let np = r.range(1, 3);
+    let n_iter = r.range(1, 4);
+    let mut script: Vec<String> = vec![format!("scoped|dims={:?} params={}", dims, np)];
+    struct Kept {
+        a: Array,
+        dims: Vec<usize>,
+        bits: Vec<u64>,
+        kind: &'static str,
+        born: usize,
+    }
+    let plan: Vec<(Vec<usize>, Vec<usize>, bool, Vec<bool>, f64)> = (0..n_iter)
+        .map(|_| {
+            (
+                (0..np).map(|_| r.below(5)).collect(),
+                (0..r.range(1, 3)).map(|_| r.below(6)).collect(),
+                r.chance(1, 4),
+                (0..np).map(|_| r.chance(3, 4)).collect(),
+                *r.pick(&[1.0, 0.5, 2.0, 0.25]),
+            )
+        })
+        .collect();
+    let init: Vec<Vec<f64>> = (0..np).map(|_| (0..n).map(|_| 0.25 * r.int(-8, 8)).collect()).collect();
+    script.push(format!("{:?}", plan));
+    let desc = script.join(" ");
+    ctx.case(&desc, n_iter >= 2);
+    ctx.sample("scoped", || desc.clone());
+    let res = crate::ctx::guard(|| {
+        let mut params: Vec<Array> = init.iter().map(|v| arr(&dims, v).tracked()).collect();
+        let mut kept: Vec<Kept> = vec![];
+        let mut fails: Vec<(String, String)> = vec![];
+        let mut stats = (0u64, 0u64);
+        let mut held: Vec<Array> = vec![];
+        let keep = |kept: &mut Vec<Kept>, a: Array, kind: &'static str, born: usize| {
+            kept.push(Kept { dims: a.dimensions().to_vec(), bits: bits(&a), a, kind, born });
+        };
+        for (it, (views, ops, hold_graph, upd, lr)) in plan.iter().enumerate() {
+            for (pi, v) in views.iter().enumerate() {
+                let p = &mut params[pi];
+                match v {
+                    1 => {
+                        p.stop_tracking();
+                        let view = p.reshape(vec![n]);
+                        p.start_tracking();
+                        keep(&mut kept, view, "paused-reshape", it);
+                    }
+                    2 => keep(&mut kept, p.clone(), "clone", it),
+                    3 => {
+                        p.stop_tracking();
+                        let view = p.reshape(vec![1, n]).reshape(dims.clone());
+                        p.start_tracking();
+                        keep(&mut kept, view, "paused-double-reshape", it);
+                    }
+                    4 => keep(&mut kept, p.reshape(vec![n]), "tracked-reshape", it),
+                    _ => {}
+                }
+            }
+            {
+                // the graph of this iteration
+                let mut acc: Array = &params[0] * &params[0];
+                for (j, o) in ops.iter().enumerate() {
+                    let q = &params[(j + 1) % np];
+                    acc = match o {
+                        0 => &acc + q,
+                        1 => &acc * q,
+                        2 => acc.sigmoid(),
+                        3 => &acc - &(q * (2.0 as Float)),
+                        4 => acc.relu(),
+                        _ => (&acc * (0.5 as Float)).exp().reshape(vec![n]).reshape(dims.clone()),
+                    };
+                }
+                acc.backward(None);
+                if *hold_graph {
+                    held.push(acc);
+                }
+            }
+            if r_chance_static(it) {
+                for p in &params {
+                    if let Some(g) = p.gradient().as_ref() {
+                        keep(&mut kept, g.clone(), "fetched-gradient", it);
+                    }
+                }
+            }
+            let graph_released = held.is_empty();
+            let gd = GradientDescent::new(*lr as Float);
+            let subset: Vec<&mut Array> = params.iter_mut().zip(upd).filter(|(_, u)| **u).map(|(p, _)| p).collect();
+            if !subset.is_empty() {
+                gd.update(subset);
+                if graph_released {
+                    stats.0 += 1;
+                }
+            }
+            for k in &kept {
+                stats.1 += 1;
+                if k.a.dimensions() != &k.dims[..] || bits(&k.a) != k.bits {
+                    let old: Vec<f64> = k.bits.iter().map(|b| f64::from_bits(*b)).collect();
+                    fails.push((format!("mutated-{}", k.kind), format!("a {} handle taken in iteration {} changed after iteration {}: dims {:?} -> {:?}, values {} -> {}", k.kind, k.born, it, k.dims, k.a.dimensions(), short(&old), short(&vals(&k.a)))));
+                    return (fails, stats, kept.len());
+                }
+            }
+            if it % 2 == 1 {
+                held.clear();
+            }
+        }
+        (fails, stats, kept.len())
+    });
+    match res {
+        Err(m) => {
+            ctx.violation(&format!("C08|scoped|panic:{}", panic_class(&m)), format!("{} panicked: {}", desc, m));
+        }
+        Ok((fails, stats, nk)) => {
+            ctx.count("scoped_updates_with_graph_released", stats.0);
+            ctx.count("scoped_views_checked", stats.1);
+            ctx.count("snapshot_reverifications", stats.1);
+            ctx.count("handles_registered", nk as u64);
+            ctx.meta(|| format!("{} kept={}", desc, nk));
+            for (k, d) in fails {
+                ctx.violation(&format!("C08|scoped|{}", k), format!("{}\n{}", d, desc));
+            }
+        }
+    }
+}
+fn r_chance_static(it: usize) -> bool {
+    it % 2 == 0
+}
+
 pub fn run_case(ctx: &mut Ctx, fam: &str, _k: u64, r: &mut Rng) {
     if fam == "training" {
         return run_training(ctx, r);
+    }
+    if fam == "scoped" {
+        return run_scoped(ctx, r);
     }
     let mut cfg = if r.chance(2, 3) { GenCfg::exact() } else { GenCfg::smooth() };
     cfg.max_ops = 100;
